@@ -19,10 +19,20 @@ Emit == (AllDone /\ Hist) => PrintT(ToJson(hist))
 EmitSim == (Hist /\ Quiet /\ asteps = MaxAtt /\ nflows = MaxOffers) => PrintT(ToJson(hist))
 \* attack generation: the properties the code keeps; a model that lacks one check breaks them, and every distinct
 \* violating state yields one witness = an attack the real code must withstand
-Kept == ReleaseAuthorized /\ TokenFromLiveCode /\ OnlySubjectObtains /\ HolderStoresVerified
-EmitBad == (Hist /\ Quiet /\ ~Kept) => PrintT(ToJson(hist))
+KeptNames   == {"ReleaseAuthorized", "TokenFromLiveCode", "OnlySubjectObtains", "HolderStoresVerified"}
+WantedNames == {"CodeSingleUse", "AtMostOneRelease", "ProofSingleUse", "HolderStoresOwn", "NoPanic"}
+Holds(n) == CASE n = "ReleaseAuthorized"    -> ReleaseAuthorized
+              [] n = "TokenFromLiveCode"    -> TokenFromLiveCode
+              [] n = "OnlySubjectObtains"   -> OnlySubjectObtains
+              [] n = "HolderStoresVerified" -> HolderStoresVerified
+              [] n = "CodeSingleUse"        -> CodeSingleUse
+              [] n = "AtMostOneRelease"     -> AtMostOneRelease
+              [] n = "ProofSingleUse"       -> ProofSingleUse
+              [] n = "HolderStoresOwn"      -> HolderStoresOwn
+              [] n = "NoPanic"              -> NoPanic
+Broken(names) == {n \in names : ~Holds(n)}
+EmitBad == (Hist /\ Quiet /\ Broken(KeptNames) # {}) => PrintT(ToJson([broken |-> Broken(KeptNames), h |-> hist]))
 \* the deviations: one witness per distinct state in which a property the code does NOT keep is broken
-Wanted == CodeSingleUse /\ AtMostOneRelease /\ ProofSingleUse /\ HolderStoresOwn /\ NoPanic
-EmitDev == (Hist /\ Quiet /\ ~Wanted) => PrintT(ToJson(hist))
+EmitDev == (Hist /\ Quiet /\ Broken(WantedNames) # {}) => PrintT(ToJson([broken |-> Broken(WantedNames \cup {"OnlySubjectObtains"}), h |-> hist]))
 HistBound == Len(hist) <= 40
 =============================================================================
